@@ -180,6 +180,33 @@ Theorem C05_rep_concat_refines :
 Proof. exact rep_concat_refines. Qed.
 Print Assumptions C05_rep_concat_refines.
 
+(* ... and, for arrays, down to the layout of the result: asArray, given items no two of which sit at one index
+   with different values (outside KF-C05-01), builds a well-formed Array that denotes exactly those items *)
+Theorem C05_rep_as_array_refines :
+  forall l, l <> [] -> (forall i x y, In (i, x) l -> In (i, y) l -> x = y) ->
+    wf (as_array l) /\
+    forall m, In m (abs (as_array l)) <-> exists i x, In (i, x) l /\ m = vpair n_item (vint i) x.
+Proof. exact as_array_refines. Qed.
+Print Assumptions C05_rep_as_array_refines.
+
+Theorem C05_rep_concat_array_layout :
+  forall a b ms l,
+    rep_concat_added a b = Some ms -> ms <> [] -> items_of n_item ms = Some l ->
+    (forall i x y, In (i, x) l -> In (i, y) l -> x = y) ->
+    rep_concat a b = Some (as_array l) /\ wf (as_array l) /\ forall m, In m (abs (as_array l)) <-> In m ms.
+Proof. exact rep_concat_array_layout. Qed.
+Print Assumptions C05_rep_concat_array_layout.
+
+Example C05_rep_concat_array_example :
+  let a := RArr 2 [Some (vint 1); None; Some (vint 3)] 2 in
+  let b := RArr (-1) [Some (vint 7); Some (vint 8)] 2 in
+  (* shifted by Count() = 2, not by the length 3 and not by the offset: an item lands on index 2, which is taken *)
+  rep_concat_added a b = Some [vpair n_item (vint 2) (vint 1); vpair n_item (vint 4) (vint 3);
+                               vpair n_item (vint 1) (vint 7); vpair n_item (vint 2) (vint 8)] /\
+  rep_concat (RArr 0 [Some (vint 1); None; Some (vint 3)] 2) (RArr (-1) [Some (vint 7)] 1) =
+    Some (RArr 0 [Some (vint 1); Some (vint 7); Some (vint 3)] 3).
+Proof. vm_compute. split; reflexivity. Qed.
+
 (* non-vacuity: a union of an offset string with holes and a relation stored as [x, @] is well formed and keyed *)
 Definition C05_example_rep : rep :=
   RUnion [RStr 3 [97; -1; -1; 101] 2; RRel [[120]; n_at] [0%nat; 1%nat] [[vint 5; vint 2]; [vint 6; vint 3]]].
